@@ -503,6 +503,11 @@ func (c *Compiler) Compile(node parser.Node) error {
 			c.emit(node, parser.OpReturn, 1)
 		}
 	case *parser.CallExpr:
+		// the argument count is a one-byte operand of OpCall
+		if len(node.Args) > 255 {
+			return c.errorf(node, "too many arguments in call (%d > 255)",
+				len(node.Args))
+		}
 		if err := c.Compile(node.Func); err != nil {
 			return err
 		}
